@@ -2,7 +2,9 @@
 
 Self-composition over the real code: the same layer operation (trait-API create/update with a result carrying two
 process-scoped env deltas, two exec.d programs and two SBOMs; struct-API `LayerRef::write_exec_d_programs` / `write_sboms`)
-is executed from MIR twice on two copies of one arbitrary symbolic layers directory.  In the second run every `HashMap`
+is executed from MIR twice on two copies of one arbitrary symbolic layers directory; likewise the build phase entry point
+(`libcnb_runtime` as `build`, with a build result carrying a launch configuration with three processes - one process type
+declared twice -, labels, a store and two SBOMs) on two copies of a valid platform input.  In the second run every `HashMap`
 iteration and every directory listing is permuted by a solver-chosen permutation (what a different hash seed / directory
 order does in another process).  The two post-states must be identical node for node.  Clocks, randomness, pids and temp
 names have no summary on purpose: reaching one makes the run inconclusive.
@@ -22,6 +24,9 @@ from harness.C01 import b2, doc_view
 
 SHARDS = {"quick": 12, "thorough": 14}
 CRATES = C01.CRATES
+PHASE_REQ = {"op": "runtime", "argv": ["build", "/L", "/platform", "/in/buildpack-plan.toml"], "behaviour": {"launch": "repeated-process-types", "store": "nonempty", "build_sboms": ["CycloneDxJson", "SpdxJson"], "launch_sboms": ["SyftJson"]},
+             "env": {"CNB_BUILDPACK_DIR": True, "CNB_TARGET_OS": True, "CNB_TARGET_ARCH": True, "CNB_TARGET_ARCH_VARIANT": False, "CNB_TARGET_DISTRO_NAME": True, "CNB_TARGET_DISTRO_VERSION": True},
+             "descriptor": {"present": True, "syntax_ok": True, "has_api": True, "api": "0.10", "rest_ok": True}, "platform_env": False, "olds": {}, "buildpack_plan_ok": True, "old_store_ok": True}
 
 
 def prepare(run):
@@ -43,12 +48,13 @@ def permute(ctx, items, label):
 
 def main(run):
     run.bounds = {"operations": "trait handle_layer with create/update returning {2 process env deltas + launch delta, 2 exec.d programs, 2 SBOMs}; "
+                                "build phase (libcnb_runtime) writing launch.toml (3 processes incl. a repeated type, 1 label), store.toml and 2 SBOM files; "
                                 "LayerRef::write_exec_d_programs with 2 programs; LayerRef::write_sboms with 2 formats; exec.d program names plain (p1, p2) or nested with a shared final component (web/setup-env, worker/setup-env)",
                   "pre-state": "arbitrary layers directory satisfying the layer invariant (C02 quick universe)",
                   "nondeterminism": "every HashMap iteration and directory listing of the second run permuted (quick: identity/reversal/rotation; thorough: all permutations up to 3 elements)"}
     run.assumptions = ["BTreeMap iteration is sorted (std); HashMap iteration and read_dir order are arbitrary",
                        "failing runs are compared only by their result class (the platform discards a failed build)"]
-    run.outside = ["the toml crate's text layer (trees are compared)", "phase outputs launch.toml/store.toml/build plan: C05's harness is not self-composed yet"]
+    run.outside = ["the toml crate's text layer (trees are compared)", "the detect phase's build plan (no collection is iterated there)"]
     P = run.program(CRATES)
     install_all(P)
     P.type_hooks["UserM"] = MHook(False)
@@ -114,7 +120,53 @@ def main(run):
             ctx.assume(z3.And(z3.Bool("n1_doc_syntax_ok"), z3.Not(z3.Bool("n1_doc_has_unknown_key"))))
         return w
 
+    f_rt = [k for k, f in P.funcs.items() if f is not None and f.name == "libcnb_runtime"]
+    plat_from = P.impl_index.get(("GenericPlatform", "Platform", "from_path"))
+    if len(f_rt) != 1 or not plat_from:
+        raise Inconclusive("libcnb_runtime / GenericPlatform::from_path not found")
+    P.summaries["env::args"] = P.summaries["args"] = lambda c2, c: ListIt(["build", "/PL", "/platform", "/in/plan.toml"])
+    P.summaries["Platform::from_path"] = lambda c2, c: P.call(c2, plat_from, list(c.args), tyenv={})
+
+    def phase_build(c2, c):
+        mk = lambda ty, cmd: P.mk_struct("Process", **{"type": Adt("ProcessType", None, [ty]), "command": VecV([cmd]), "args": VecV([]), "default": False,
+                                                       "working_directory": Adt("WorkingDirectory", "App", [])})
+        launch = P.mk_struct("Launch", labels=VecV([P.mk_struct("Label", key="k", value=z3.String("label_value"))]),
+                             processes=VecV([mk("web", "generic"), mk("worker", z3.String("worker_cmd")), mk("web", "specific")]), slices=VecV([]))
+        store = P.mk_struct("Store", metadata=Opaque("toml", TVal("store.metadata", kind="table", entries=[["a", True, TVal("a", kind="str", scalar="1")], ["b", True, TVal("b", kind="str", scalar="2")]], ident=z3.IntVal(9))))
+        sb = lambda f: P.mk_struct("Sbom", format=Adt("SbomFormat", f, []), data=VecV(["sbom-" + f]))
+        from harness.C05 import order_pass
+        return Ok(Adt("BuildResult", None, [Adt("InnerBuildResult", "Pass", order_pass(P, Some(launch), Some(store), VecV([sb("CycloneDxJson"), sb("SpdxJson")]), VecV([sb("SyftJson")])))]))
+    P.summaries["Buildpack::build"] = phase_build
+    P.summaries["Buildpack::on_error"] = lambda c2, c: UNIT
+
+    class DescHook:
+        def deserialize(self, c2, ty, tv):
+            return Ok(Opaque("descriptor", "bp"))
+
+        def missing(self, c2, md):
+            return Ok(Opaque("descriptor", "bp"))
+    P.type_hooks["ComponentBuildpackDescriptor"] = DescHook()
+
+    def phase_world(w):
+        for d in ("/bp", "/platform", "/PL", "/in", "/app"):
+            w.add(d, DIR)
+        w.cwd = "/app"
+        for v in ("CNB_TARGET_OS", "CNB_TARGET_ARCH", "CNB_TARGET_DISTRO_NAME", "CNB_TARGET_DISTRO_VERSION"):
+            w.env[v] = "v"
+        w.env["CNB_BUILDPACK_DIR"] = "/bp"
+        w.add("/bp/buildpack.toml", FILE, content=TomlText(True, TVal("bp", kind="table", entries=[["api", True, TVal("bp.api", kind="str", scalar="0.10")]])))
+        w.add("/in/plan.toml", FILE, content=TomlText(True, TVal("plan", kind="table", entries=[["entries", True, TVal("plan.entries", kind="array", elems=[])]])))
+
+    def run_phase(ctx):
+        try:
+            P.call(ctx, f_rt[0], [Ref(Box(Adt("TestBuildpack", None, [])))], tyenv={"B": "TestBuildpack"})
+        except Exit as e:
+            return f"exit:{e.code}"
+        return "returned"
+
     def run_op(ctx, op, script):
+        if op == "phase":
+            return run_phase(ctx)
         bc = P.mk_struct("BuildContext", layers_dir=L)
         if op == "trait":
             layer = install_layer(ctx, script)
@@ -133,10 +185,12 @@ def main(run):
         return r.variant
 
     def entry(ctx):
-        op = ["trait", "execd", "sboms"][ctx.choose([True] * 3, "op")]
+        op = ["trait", "execd", "sboms", "phase"][ctx.choose([True] * 4, "op")]
         ctx.op = op
         w1 = ctx.world
-        if op != "trait":
+        if op == "phase":
+            phase_world(w1)
+        elif op != "trait":
             ctx.assume(w1.fs["/L/n1"].kind == DIR)
         w2 = w1.clone()
         script = {"strategy": None, "migrate": None}
@@ -162,7 +216,21 @@ def main(run):
         stats["permuted"] += 1 if ctx.perm_used else 0
         w1, w2 = out["w1"], out["w2"]
         eqs = [z3.BoolVal(out["r1"] == out["r2"])]
-        if out["r1"] == "Ok" and out["r2"] == "Ok":
+        if ctx.op == "phase":
+            if out["r1"] == "exit:0":
+                stats["ok_runs"] += 1
+            for p_ in sorted(set(w1.fs) | set(w2.fs)):
+                if not p_.startswith("/PL"):
+                    continue
+                a, bnode = w1.get(p_), w2.get(p_)
+                eqs.append(b2(a.kind == bnode.kind))
+                if isinstance(a.content, TomlText) and isinstance(bnode.content, TomlText):
+                    eqs.append(tree_eq(a.content.tree, bnode.content.tree))
+                elif a.content is not None and bnode.content is not None and not isinstance(a.content, TomlText) and not isinstance(bnode.content, TomlText):
+                    eqs.append(b2(seq_eq(a.content, bnode.content)))
+                elif (a.content is None) != (bnode.content is None) or isinstance(a.content, TomlText) != isinstance(bnode.content, TomlText):
+                    eqs.append(z3.BoolVal(False))
+        elif out["r1"] == "Ok" and out["r2"] == "Ok":
             stats["ok_runs"] += 1
             for p_ in sorted(set(w1.fs) | set(w2.fs)):
                 a, bnode = w1.get(p_), w2.get(p_)
@@ -196,13 +264,50 @@ def main(run):
             if i % 2 == 1:
                 outs_nested.add(json.dumps(real, sort_keys=True))
         outs.discard("")
+        phase_outs = set(json.dumps(run.replay.run([PHASE_REQ])[0].get("contents"), sort_keys=True) for _ in range(4))
+        if len(phase_outs) != 1:
+            run.candidate("outputs-depend-on-iteration-order:real-build-phase", "four fresh processes wrote different launch.toml/store.toml", PHASE_REQ, True)
         if len(outs) != 1 or len(outs_nested) != 1:
             run.candidate("outputs-depend-on-iteration-order:real-build", "six fresh processes produced different layer outputs", {"op": "layer-det"}, True)
         else:
             run.stats["validated"] += 6
 
 
+def seq_eq(a, b):
+    from mirsym.summ_core import val_eq
+    r = val_eq(None, a, b)
+    return r
+
+
+def tree_eq(a, b):
+    """equality of two written documents as ordered trees: arrays element by element in order, tables key by key"""
+    if a.kind != b.kind:
+        return z3.BoolVal(False)
+    if a.kind == "array":
+        if len(a.elems) != len(b.elems):
+            return z3.BoolVal(False)
+        return z3.And([tree_eq(x, y) for x, y in zip(a.elems, b.elems)] or [z3.BoolVal(True)])
+    if a.kind == "table":
+        if a.entries is None or b.entries is None:
+            return b2(a.ident == b.ident) if a.ident is not None and b.ident is not None else z3.BoolVal(a.entries is None and b.entries is None)
+        ka = [(k, p) for k, p, v in a.entries if p is not False]
+        kb = [(k, p) for k, p, v in b.entries if p is not False]
+        if [k for k, _ in ka] != [k for k, _ in kb]:        # same keys in the same order: toml writes tables in insertion order
+            return z3.BoolVal(False)
+        return z3.And([tree_eq(x[2], y[2]) for x, y in zip([e for e in a.entries if e[1] is not False], [e for e in b.entries if e[1] is not False])] or [z3.BoolVal(True)])
+    sa, sb = a.scalar, b.scalar
+    if isinstance(sa, (str, bool, int)) and isinstance(sb, (str, bool, int)):
+        return z3.BoolVal(sa == sb)
+    return b2(S(sa) == S(sb)) if a.kind == "str" else b2(sa == sb)
+
+
 def confirm_real(run, ctx, m, op):
+    if op == "phase":
+        outs = set()
+        for i in range(16):
+            real = run.replay.run([PHASE_REQ])[0]
+            outs.add(json.dumps(real.get("contents"), sort_keys=True))
+        return len(outs) > 1
     outs = set()
     for i in range(16):
         real = run.replay.run([{"op": "layer-det", "names": getattr(ctx, "names_kind", "plain")}])[0]
@@ -217,6 +322,10 @@ def finalize(run):
 
 
 def replay(run, scen):
+    if scen["scenario"].get("op") == "phase":
+        outs = set(json.dumps(run.replay.run([PHASE_REQ])[0].get("contents"), sort_keys=True) for _ in range(16))
+        print(json.dumps({"distinct_phase_outputs_over_16_processes": len(outs)}))
+        return 0
     outs = set()
     for i in range(16):
         outs.add(json.dumps(run.replay.run([{"op": "layer-det", "names": scen["scenario"].get("names", "plain")}])[0], sort_keys=True))
